@@ -780,11 +780,18 @@ def real_pools(res):
 
 
 def run(res):
-    res.proof_step('Props/C02.v', extra_targets=['Model/Reassembly.vo'], kernels_needed=['K_reassembly'])
+    res.proof_step('Props/C02.v', extra_targets=['Model/Reassembly.vo', 'Model/Pool.vo'], kernels_needed=['K_reassembly'])
     n = 600 if res.tier == 'quick' else 20000
     if res.broken:
         n = max(n, 5000)      # failing-input search
     correspond(res, n)
+    # the task handler's side of the same jobs (task sequences, the length an imap handle is told, put
+    # failures) belongs to the pool model: histories of map/imap submissions, feeds and results
+    from props import poolcommon as pc
+    pc.pool_check(res, 'C02', 80 if res.tier == 'quick' else 2500,
+                  focus={'map': 7, 'imap': 9, 'imapu': 6, 'feed': 12, 'ready': 12, 'ack': 6, 'next': 9, 'apply': 2,
+                         'exit': 1, 'tick': 2, 'scan': 0.5, 'scan_block': 0.3, 'advance': 2, 'advance_deadline': 1,
+                         'terminate_job': 0.3, 'grow': 0.2, 'shrink': 0.2, 'close': 0.2})
     if res.tier != 'quick':
         real_pools(res)
     res.assumptions += [
@@ -799,6 +806,9 @@ def run(res):
 def replay(path):
     d = json.load(open(path))
     r = d['replay']
+    if r.get('kind') == 'pool-history':
+        from props import poolcommon as pc
+        return pc.pool_replay(path)
     if 'pool_case' in r:
         print('real-pool case (thorough tier): re-run ./check C02 --tier thorough;', json.dumps(r['pool_case']))
         return 1
